@@ -189,6 +189,11 @@ def effShape : List Fmt → List Nat → Option (List Nat) → List Nat
   | f :: fs, tsh, ish =>
     dimOf tsh ish :: effShape fs tsh.tail (ishNext f ish)
 
+/-- two extent lists agree on every rank whose layout depends on the extent (U and B) -/
+def agreeNonC : List Fmt → List Nat → List Nat → Bool
+  | [], _, _ => true
+  | f :: fs, a, b => (f == .C || a.headD 0 == b.headD 0) && agreeNonC fs a.tail b.tail
+
 /-! ### Decoding by the documented layout (specification side) -/
 
 /-- positions of the set bits of a mask -/
